@@ -350,8 +350,8 @@ impl PartialOrd for Integer {
 
 impl Ord for Integer {
     fn cmp(&self, other: &Self) -> cmp::Ordering {
-        match (self.is_positive(), other.is_positive()) {
-            (true, true) => { // i.e., both > 0
+        match (self.is_negative(), other.is_negative()) {
+            (false, false) => { // i.e., both >= 0
                 match self.0.len().cmp(&other.0.len()) {
                     cmp::Ordering::Equal => {
                         for (l, r) in self.0.iter().zip(other.0.iter()) {
@@ -365,13 +365,15 @@ impl Ord for Integer {
                     cmp => cmp
                 }
             }
-            (false, false) => { // i.e., both <= 0
+            (true, true) => { // i.e., both < 0
                 match self.0.len().cmp(&other.0.len()) {
                     cmp::Ordering::Equal => {
+                        // With equal length and sign, the order of the
+                        // two’s complement octets is that of the numbers.
                         for (l, r) in self.0.iter().zip(other.0.iter()) {
                             match l.cmp(r) {
                                 cmp::Ordering::Equal => { }
-                                cmp => return cmp.reverse()
+                                cmp => return cmp
                             }
                         }
                         cmp::Ordering::Equal
@@ -379,8 +381,8 @@ impl Ord for Integer {
                     cmp => cmp.reverse()
                 }
             }
-            (false, true) => cmp::Ordering::Less,
-            (true, false) => cmp::Ordering::Greater,
+            (true, false) => cmp::Ordering::Less,
+            (false, true) => cmp::Ordering::Greater,
         }
     }
 }
